@@ -8,9 +8,9 @@ TECH = "contract-based deductive verification: VCs generated from the real sourc
 TRUST = "trusted: the pyvc interpreter (cross-checked per path against CPython), the hand-written spec tables under spec/, z3/cvc5; "
 
 CHECKS = {
-    "C01": dict(cat="proof", ref="6 C01",
+    "C01": dict(cat="other", ref="6 C01",
                 text="for every command class found in the package, on every command set that offers it, all argument values of the standard's field widths at once: CDB length, operation code, service action, every field decoded by the standard's layout equals the argument, all reserved bits zero; one z3 obligation per clause and path",
-                note=TRUST + "arguments quantified over the standard's field widths; structured data-out commands (MODE SELECT, PR OUT, EXTENDED COPY) get their CDB clauses from the C05 units; EXCHANGE MEDIUM INV1/INV2 is a recorded known finding"),
+                note="claimed as 'other' only because one known finding (EXCHANGE MEDIUM INV1/INV2, pinned by an existing test) leaves two obligations undischarged; " + TRUST + "arguments quantified over the standard's field widths; structured data-out commands (MODE SELECT, PR OUT, EXTENDED COPY) get their CDB clauses from the C05 units; EXCHANGE MEDIUM INV1/INV2 is a recorded known finding"),
     "C03": dict(cat="proof", ref="6 C03",
                 text="same symbolic constructor runs as C01 with the data-phase clauses: len(datain) equals the allocation length decoded from the CDB / tl*blocksize / the SAT transfer rule over all t_length, byte_block, t_type, t_dir; dataout is the caller's object or empty; both are byte buffers",
                 note=TRUST + "the transports' use of the buffers is covered by the C07/C13 units"),
@@ -26,6 +26,9 @@ CHECKS = {
     "C10": dict(cat="proof", ref="6 C10",
                 text="scsi_int_to_ba / scsi_ba_to_int for every size 0..16 (32 thorough) against division/modulo spec functions; encode_dict / decode_bits for every contiguous mask of 1..72 bits at every bit alignment (1..128 thorough) plus every mask in the repository, at a symbolic byte offset of an arbitrary buffer (z3 arrays, skolem index for the frame clause); blobs b/w/dw; order independence and decode(encode) on every layout table of the repository",
                 note=TRUST + "the mask family is finite (stated); a proof parametric in the mask is not attempted; callers verified modularly use these contracts"),
+    "C13": dict(cat="other", ref="6 C13",
+                text="deductive, like the proof-level checks, but with one recorded known finding (EXCHANGE MEDIUM INV1/INV2), hence 'other'. Every facade method found on SCSI is interpreted over a recording device (assumed contract of device.execute: may rewrite datain, returns or raises) on every command set that offers the command and for every subset of optional arguments (quick: none / all / each single), all argument values symbolic: exactly one execute, whose command is the returned object with the opcode/service action of the attached set; every given or defaulted argument reaches the CDB at the standard's position; the device saw the very buffers on the command; the decoder runs once, after execute, on that buffer, with arguments the real decoder accepts; a failing device makes the facade raise the same error with nothing decoded",
+                note=TRUST + "unmarshall_datain is replaced by an uninterpreted result (its own contract is C04); structured arguments (mode page, PR OUT list, EXTENDED COPY lists) use representative shapes here and are quantified in C05"),
     "C14": dict(cat="proof", ref="6 C14",
                 text="one ground obligation per table entry (5 sets, 249 opcodes, every service action, 9 status names, all cross-set pairs) against spec/t10_opcodes.py, read from the live Enum/OpCode objects; SCSICommand.init_cdb verified for every integer opcode value (symbolic, 129-bit range)",
                 note=TRUST + "T10 code list transcribed by hand; names unknown to the reference make the check undecided"),
